@@ -111,6 +111,10 @@ func (u *Unit) verify() (err error) {
 	for _, c := range con.Requires {
 		u.s.assume(env.evalBool(c.Expr))
 	}
+	for _, c := range con.BoundReq {
+		u.s.assume(env.evalBool(c.Expr))
+		u.note("bounded proof of %s holds under the stated bound: %s", con.Key, c.Expr)
+	}
 	u.nRequiresFacts = len(u.s.facts)
 	if con.Trusted {
 		return nil
@@ -387,7 +391,22 @@ func (u *Unit) applyContract(st *State, con *Contract, args []TV, instr ssa.Inst
 		post.vars["result"] = post.vars[rn[0]]
 	}
 	for _, c := range con.Ensures {
+		// clauses over the callee's local variables (e.g. its option record) say nothing to a caller: skipped
+		func() {
+			defer func() {
+				if r := recover(); r != nil {
+					if us, ok := r.(unsupported); ok && strings.Contains(us.msg, "unknown identifier") {
+						return
+					}
+					panic(r)
+				}
+			}()
+			u.s.assume(implies(st.reach, post.evalBool(c.Expr)))
+		}()
+	}
+	for _, c := range con.Assumed {
 		u.s.assume(implies(st.reach, post.evalBool(c.Expr)))
+		u.note("assumed (unchecked) postcondition of %s: %s", con.Key, c.Expr)
 	}
 	if con.Trusted {
 		u.note("trusted contract: %s", con.Key)
